@@ -24,7 +24,7 @@ BUDGET_S = {"quick": 240, "thorough": 2400}
 EXTRA_BUILDS = {"thorough": ["rel", "asan"]}
 GENERIC_REL = False  # own release stage below
 MIN_HITS = {
-    'quick': {"program": 152447, "allbytes": 1280, "random_tokens": 1920, "constructed": 906, "tx_bound": 448, "lib_err": 23994, "lib_ok": 127674, "post_error_state_checked": 23994, "step_vs_run": 151668},
+    'quick': {"program": 154861, "allbytes": 1280, "random_tokens": 1920, "constructed": 906, "tx_bound": 448, "lib_err": 26196, "lib_ok": 127841, "post_error_state_checked": 26196, "step_vs_run": 154037},
     'thorough': {"program": 1289576, "allbytes": 1536, "random_tokens": 614400, "constructed": 153739, "tx_bound": 76800, "lib_err": 794134, "lib_ok": 425927, "step_vs_run": 1220062},
 }
 HOSTILE = [b"", b"\x00", b"\x80", b"\x01", b"\x81", b"\x02", b"\x7f", b"\xff", b"\xff\xff\xff\x7f", b"\xff\xff\xff\xff", b"\x00\x00\x00\x80\x00", b"\xff" * 9, b"\x01\x00\x00\x00\x00\x00", bytes(33), b"\x02" + bytes(32), bytes(71), b"\x30\x06\x02\x01\x01\x02\x01\x01\x41"]
